@@ -29,7 +29,7 @@ pub fn lanes() -> Vec<Lane> {
     vec![
         Lane { name: "ladder-check", count: |_| 1, run: ladder_lane },
         Lane { name: "single", count: |_| (6 * 9 * 10 * 5) as u64, run: single_lane },
-        Lane { name: "fields", count: |c| if c.thorough() { 80_000 } else { 4_000 }, run: fields_lane },
+        Lane { name: "fields", count: |c| if c.thorough() { 200_000 } else { 20_000 }, run: fields_lane },
     ]
 }
 
